@@ -1,6 +1,4 @@
-import NpsVerif.Model.RunLength2d
-namespace Props.C17
-open Model Model.RL2
-/-- sanity instance; the universally quantified theorems are added as they are proved -/
-theorem fromRagged_example : (fromRagged (fun (x y : Nat) => x != y) [[1, 1, 2], [2], [2, 2, 1, 1]]).toRows = some [[1, 1, 2], [2], [2, 2, 1, 1]] := by decide
-end Props.C17
+import NpsVerif.Props.C17A
+import NpsVerif.Props.C17B
+/-! Property C17: theorems in `Props/C17A.lean` (constructors, row selection, elements, integer columns,
+row reductions, ufuncs) and `Props/C17B.lean` (ravel, concatenate, column counts, column sums). -/
